@@ -364,8 +364,12 @@ def sk_writes(tier):
             forms = ["dict_letter"]
             if set(pat) <= {"N", "I"} and "I" in pat:
                 forms.append("tuple")
+            if set(pat) != {"N"} and (tier == "thorough" or k <= 2):
+                forms.append("dict_name")  # the key names the dimensions instead of giving their letters
             for f in forms:
                 for rhs in ("number", "array", "array_perm_extra", "array_missing"):
+                    if f == "dict_name" and rhs not in ("number", "array"):
+                        continue
                     if rhs == "array_missing" and all(c == "I" for c in pat):
                         continue
                     if rhs != "number" and "L" in pat:
